@@ -347,6 +347,9 @@ static void walk_trace(void)
 	EP = calloc(EP_cap, sizeof *EP);
 	int c06 = det; /* the ledger needs the total order */
 	double max_gvt = 0;
+	double recent_anti[32];
+	unsigned n_recent_anti = 0;
+	memset(recent_anti, 0, sizeof recent_anti);
 
 	for(size_t i = 0; i < n && res->verdict != RSV_FAIL; i++) {
 		const struct rsv_rec *r = &rsv_trace[i];
@@ -355,6 +358,12 @@ static void walk_trace(void)
 		switch(r->kind) {
 			case RSV_EV_GVT:
 				res->cls[K_GVT_ROUNDS]++;
+				/* generator quality: was this value bound by cancellation debris (an anti-message extracted lately)? */
+				for(unsigned q = 0; q < 32; q++)
+					if(recent_anti[q] == r->t && r->t > 0) {
+						res->cls[K_GVT_BOUND_BY_ANTI]++;
+						break;
+					}
 				if(r->t < gvt_last[th])
 					rt_fail("C04", "GVT reported to thread %d decreased from %a to %a", r->rid, gvt_last[th], r->t);
 				gvt_last[th] = r->t;
@@ -365,6 +374,8 @@ static void walk_trace(void)
 				gvts[th][ngv[th]++] = r->t;
 				break;
 			case RSV_EV_EXTRACT:
+				if(r->a & 1)
+					recent_anti[n_recent_anti++ & 31] = r->m_t;
 				if(r->m_t < gvt_last[th])
 					rt_fail("C04", "thread %d extracted %s with timestamp %a for LP %llu after it had been told GVT = %a", r->rid,
 					    r->a & 1 ? "an anti-message" : "an event", r->m_t, (unsigned long long)r->m_dest, gvt_last[th]);
@@ -837,50 +848,25 @@ static void check_stats(const char *stats_path)
 		}
 	}
 	int64_t n_cnt = (int64_t)rd(&R, 8);
-	if(n_cnt != 1) {
-		rt_fail("C20", "statistics file: %lld node records for a single-node run", (long long)n_cnt);
+	unsigned ranks = RT.cfg.ranks ? RT.cfg.ranks : 1;
+	if(n_cnt != (int64_t)ranks) {
+		rt_fail("C20", "statistics file: %lld node records, the run used %u rank(s)", (long long)n_cnt, ranks);
 		goto out;
 	}
-	uint64_t glob[9];
-	for(int i = 0; i < 9; i++)
-		glob[i] = rd(&R, 8);
-	uint64_t t_cnt = glob[0];
-	unsigned eff_thr = RT.cfg.n_threads < g->n_lps ? RT.cfg.n_threads : g->n_lps;
-	if(t_cnt != eff_thr) {
-		rt_fail("C20", "statistics file: thread count %llu, the run used %u threads", (unsigned long long)t_cnt, eff_thr);
-		goto out;
-	}
-	int64_t n_siz = (int64_t)rd(&R, 8);
-	if(n_siz < 0 || n_siz % 16) {
-		rt_fail("C20", "statistics file: node GVT array size %lld is not a multiple of 16", (long long)n_siz);
-		goto out;
-	}
-	size_t n_rec = (size_t)(n_siz / 16);
-	double *gv = malloc((n_rec + 1) * sizeof(double));
-	for(size_t i = 0; i < n_rec; i++) {
-		uint64_t b = rd(&R, 8);
-		memcpy(&gv[i], &b, 8);
-		(void)rd(&R, 8);
-		if(i && gv[i] < gv[i - 1])
-			rt_fail("C20", "statistics file: GVT column decreases from %a to %a at record %zu", gv[i - 1], gv[i], i);
-	}
-	res->cls[K_STATS_RECORDS] = n_rec;
-	/* what happened, per thread (rid) and per flush period, from the hook trace */
+	/* what happened, per (rank, rid) and per flush period, from the hook trace */
+	enum { MAXT = 16 };
 	size_t tn = rsv_trace_n();
 	int have_trace = !rsv_trace_overflow();
-	uint64_t (*per)[6] = NULL;
-	size_t per_cap = 0;
-	uint64_t **cnts = calloc(t_cnt, sizeof *cnts); /* cnts[rid][period*6 + k] */
-	size_t *nper = calloc(t_cnt, sizeof *nper);
-	size_t *capper = calloc(t_cnt, sizeof *capper);
-	(void)per;
-	(void)per_cap;
-	double *tgv = NULL;
-	size_t ntgv = 0;
+	size_t slots = (size_t)ranks * MAXT;
+	uint64_t **cnts = calloc(slots, sizeof *cnts); /* cnts[rank*MAXT+rid][period*6 + k] */
+	size_t *nper = calloc(slots, sizeof *nper);
+	size_t *capper = calloc(slots, sizeof *capper);
+	double **tgv = calloc(ranks, sizeof *tgv); /* GVT values thread 0 of each rank logged */
+	size_t *ntgv = calloc(ranks, sizeof *ntgv);
 	if(have_trace) {
 		for(size_t i = 0; i < tn; i++) {
 			const struct rsv_rec *r = &rsv_trace[i];
-			if(r->rid < 0 || (uint64_t)r->rid >= t_cnt)
+			if(r->rid < 0 || r->rid >= MAXT || r->rank < 0 || (unsigned)r->rank >= ranks)
 				continue;
 			int k = -1;
 			switch(r->kind) {
@@ -910,12 +896,12 @@ static void check_stats(const char *stats_path)
 					break;
 			}
 			if(k == 6 && r->rid == 0) { /* the GVT value thread 0 logs in this round (main loop or drain) */
-				tgv = realloc(tgv, (ntgv + 1) * sizeof(double));
-				tgv[ntgv++] = r->t;
+				tgv[r->rank] = realloc(tgv[r->rank], (ntgv[r->rank] + 1) * sizeof(double));
+				tgv[r->rank][ntgv[r->rank]++] = r->t;
 			}
 			if(k < 0)
 				continue;
-			int t = r->rid;
+			size_t t = (size_t)r->rank * MAXT + (size_t)r->rid;
 			if(nper[t] + 2 > capper[t]) {
 				size_t nc = capper[t] ? capper[t] * 2 : 16;
 				cnts[t] = realloc(cnts[t], nc * 6 * sizeof(uint64_t));
@@ -931,62 +917,105 @@ static void check_stats(const char *stats_path)
 	static const int col[6] = {S_PROCESSED, S_ROLLBACK, S_MSG_ROLLBACK, S_CKPT, S_SILENT, S_ANTI};
 	static const char *cname[6] = {"forward executions", "rollbacks", "undone events", "checkpoints", "silent re-executions", "anti-messages"};
 	int stopped = g->stop_lp >= 0;
-	for(uint64_t t = 0; t < t_cnt && !R.bad && res->verdict != RSV_FAIL; t++) {
-		int64_t t_siz = (int64_t)rd(&R, 8);
-		if(t_siz < 0 || t_siz % (s_cnt * 8)) {
-			rt_fail("C20", "statistics file: thread %llu array size %lld is not a multiple of %lld", (unsigned long long)t, (long long)t_siz,
-			    (long long)(s_cnt * 8));
+	uint64_t lps_sum = 0;
+	size_t rec_total = 0;
+	double *gv = NULL;
+	for(unsigned nd = 0; nd < ranks && !R.bad && res->verdict != RSV_FAIL; nd++) {
+		uint64_t glob[9];
+		for(int i = 0; i < 9; i++)
+			glob[i] = rd(&R, 8);
+		uint64_t t_cnt = glob[0];
+		lps_sum += glob[1];
+		/* a node runs min(configured threads, LPs it hosts) threads; the file states both */
+		uint64_t eff_thr = RT.cfg.n_threads < glob[1] ? RT.cfg.n_threads : glob[1];
+		if(t_cnt != eff_thr || t_cnt > MAXT) {
+			rt_fail("C20", "statistics file: node %u: thread count %llu, but it hosts %llu LPs with %u configured threads", nd,
+			    (unsigned long long)t_cnt, (unsigned long long)glob[1], RT.cfg.n_threads);
 			break;
 		}
-		size_t recs = (size_t)(t_siz / (s_cnt * 8));
-		if(recs != n_rec) {
-			size_t dlt = recs > n_rec ? recs - n_rec : n_rec - recs;
-			if(!stopped || dlt > 1)
-				rt_fail("C20", "statistics file: thread %llu has %zu per-GVT records, the node has %zu%s", (unsigned long long)t, recs, n_rec,
-				    stopped ? " (run stopped by RootsimStop: a difference of one round is tolerated)" : "");
+		int64_t n_siz = (int64_t)rd(&R, 8);
+		if(n_siz < 0 || n_siz % 16) {
+			rt_fail("C20", "statistics file: node %u: GVT array size %lld is not a multiple of 16", nd, (long long)n_siz);
+			break;
 		}
-		uint64_t cum_fwd = 0, cum_undone = 0;
-		for(size_t k = 0; k < recs && !R.bad; k++) {
-			uint64_t v[64];
-			for(int64_t j = 0; j < s_cnt; j++)
-				v[j] = rd(&R, 8);
-			cum_fwd += v[idx_of[S_PROCESSED]];
-			cum_undone += v[idx_of[S_MSG_ROLLBACK]];
-			if(cum_undone > cum_fwd)
-				rt_fail("C20", "statistics file: thread %llu: cumulative undone events (%llu) exceed forward executions (%llu) at record %zu",
-				    (unsigned long long)t, (unsigned long long)cum_undone, (unsigned long long)cum_fwd, k);
-			if(have_trace && k < nper[t])
-				for(int c = 0; c < 6; c++)
-					if(v[idx_of[col[c]]] != cnts[t][k * 6 + c]) {
-						rt_fail("C20", "statistics file: thread %llu record %zu reports %llu %s, but %llu occurred on that thread since its previous record",
-						    (unsigned long long)t, k, (unsigned long long)v[idx_of[col[c]]], cname[c], (unsigned long long)cnts[t][k * 6 + c]);
+		size_t n_rec = (size_t)(n_siz / 16);
+		if(n_rec > R.n) {
+			R.bad = 1;
+			break;
+		}
+		gv = realloc(gv, (n_rec + 1) * sizeof(double));
+		for(size_t i = 0; i < n_rec; i++) {
+			uint64_t b = rd(&R, 8);
+			memcpy(&gv[i], &b, 8);
+			(void)rd(&R, 8);
+			if(i && gv[i] < gv[i - 1])
+				rt_fail("C20", "statistics file: node %u: GVT column decreases from %a to %a at record %zu", nd, gv[i - 1], gv[i], i);
+		}
+		rec_total = n_rec > rec_total ? n_rec : rec_total;
+		for(uint64_t t = 0; t < t_cnt && !R.bad && res->verdict != RSV_FAIL; t++) {
+			size_t ti = (size_t)nd * MAXT + t;
+			int64_t t_siz = (int64_t)rd(&R, 8);
+			if(t_siz < 0 || t_siz % (s_cnt * 8)) {
+				rt_fail("C20", "statistics file: node %u thread %llu array size %lld is not a multiple of %lld", nd, (unsigned long long)t,
+				    (long long)t_siz, (long long)(s_cnt * 8));
+				break;
+			}
+			size_t recs = (size_t)(t_siz / (s_cnt * 8));
+			if(recs != n_rec) {
+				size_t dlt = recs > n_rec ? recs - n_rec : n_rec - recs;
+				if(!stopped || dlt > 1)
+					rt_fail("C20", "statistics file: node %u thread %llu has %zu per-GVT records, the node has %zu%s", nd, (unsigned long long)t,
+					    recs, n_rec, stopped ? " (run stopped by RootsimStop: a difference of one round is tolerated)" : "");
+			}
+			uint64_t cum_fwd = 0, cum_undone = 0;
+			for(size_t k = 0; k < recs && !R.bad; k++) {
+				uint64_t v[64];
+				for(int64_t j = 0; j < s_cnt; j++)
+					v[j] = rd(&R, 8);
+				cum_fwd += v[idx_of[S_PROCESSED]];
+				cum_undone += v[idx_of[S_MSG_ROLLBACK]];
+				if(cum_undone > cum_fwd)
+					rt_fail("C20", "statistics file: node %u thread %llu: cumulative undone events (%llu) exceed forward executions (%llu) at record %zu",
+					    nd, (unsigned long long)t, (unsigned long long)cum_undone, (unsigned long long)cum_fwd, k);
+				if(have_trace && k < nper[ti])
+					for(int c = 0; c < 6; c++)
+						if(v[idx_of[col[c]]] != cnts[ti][k * 6 + c]) {
+							rt_fail("C20", "statistics file: node %u thread %llu record %zu reports %llu %s, but %llu occurred on that thread since its previous record",
+							    nd, (unsigned long long)t, k, (unsigned long long)v[idx_of[col[c]]], cname[c], (unsigned long long)cnts[ti][k * 6 + c]);
+							break;
+						}
+			}
+			if(have_trace && nper[ti] != recs)
+				rt_fail("C20", "statistics file: node %u thread %llu wrote %zu records but flushed %zu times", nd, (unsigned long long)t, recs, nper[ti]);
+		}
+		/* the GVT column is what thread 0 of that node was told */
+		if(have_trace && !R.bad && res->verdict != RSV_FAIL) {
+			if(ntgv[nd] != n_rec)
+				rt_fail("C20", "statistics file: node %u: %zu node records but its thread 0 logged %zu GVT rounds", nd, n_rec, ntgv[nd]);
+			else
+				for(size_t i = 0; i < n_rec; i++)
+					if(gv[i] != tgv[nd][i]) {
+						rt_fail("C20", "statistics file: node %u: GVT column record %zu is %a, the GVT of that round was %a", nd, i, gv[i], tgv[nd][i]);
 						break;
 					}
 		}
-		if(have_trace && nper[t] != recs)
-			rt_fail("C20", "statistics file: thread %llu wrote %zu records but flushed %zu times", (unsigned long long)t, recs, nper[t]);
 	}
+	res->cls[K_STATS_RECORDS] = rec_total;
 	if(R.bad)
 		rt_fail("C20", "statistics file is truncated: its size fields lead beyond the end of the file (%zu bytes)", R.n);
 	else if(res->verdict != RSV_FAIL && R.i != R.n)
 		rt_fail("C20", "statistics file has %zu trailing bytes after the documented layout", R.n - R.i);
-	/* the GVT column is what thread 0 was told */
-	if(have_trace && res->verdict != RSV_FAIL) {
-		if(ntgv != n_rec)
-			rt_fail("C20", "statistics file: %zu node records but thread 0 logged %zu GVT rounds", n_rec, ntgv);
-		else
-			for(size_t i = 0; i < n_rec; i++)
-				if(gv[i] != tgv[i]) {
-					rt_fail("C20", "statistics file: GVT column record %zu is %a, the GVT of that round was %a", i, gv[i], tgv[i]);
-					break;
-				}
-	}
-	for(uint64_t t = 0; t < t_cnt; t++)
+	else if(res->verdict != RSV_FAIL && lps_sum != g->n_lps)
+		rt_fail("C20", "statistics file: the nodes report %llu LPs in total, the model has %u", (unsigned long long)lps_sum, g->n_lps);
+	for(size_t t = 0; t < slots; t++)
 		free(cnts[t]);
+	for(unsigned k = 0; k < ranks; k++)
+		free(tgv[k]);
 	free(cnts);
 	free(nper);
 	free(capper);
 	free(tgv);
+	free(ntgv);
 	free(gv);
 out:
 	free(R.d);
@@ -1173,7 +1202,7 @@ void rt_oracles_end(const char *stats_path)
 		res->nontrivial = res->cls[K_STATS_RECORDS] >= 2 && res->cls[K_ROLLBACKS] > 0;
 	else
 		res->nontrivial = res->cls[K_ROLLBACKS] > 0;
-	if(RT.cfg.stats && RT.cfg.ranks <= 1 && stats_path && stats_path[0]) {
+	if(RT.cfg.stats && stats_path && stats_path[0]) {
 		if(RT.cfg.serial)
 			check_stats_serial(stats_path);
 		else
